@@ -836,6 +836,7 @@ type RunResult struct {
 	HarnessErr  string         `json:"harness_err,omitempty"`
 	BubblePanic string         `json:"bubble_panic,omitempty"`
 	Summary     string         `json:"summary,omitempty"`
+	Replays     []string       `json:"replays,omitempty"`
 }
 
 func tmpRoot() string {
